@@ -204,7 +204,13 @@ where
     }
 
     // fall back to a copy and delete if src and dst are on different mounts
-    fs::copy(src.as_ref(), dst.as_ref()).and_then(|_| fs::remove_file(src.as_ref()))
+    fs::copy(src.as_ref(), dst.as_ref())?;
+    fs::remove_file(src.as_ref()).map_err(|e| {
+        // the source stays where it is, so the copy must not stay as well: the
+        // same records would otherwise be archived twice
+        let _ = fs::remove_file(dst.as_ref());
+        e
+    })
 }
 
 #[cfg(feature = "background_rotation")]
